@@ -380,7 +380,50 @@ def run(ck, only=None):
             jobs.append({"id": jid, "mode": "flagcmp", "ops": [["header", h] for h in hs],
                          "flags": [hs[-1]] + (["--"] + sum((["-include", h] for h in hs[:-1]), []) if n > 1 else [])})
             index[jid] = {"name": name, "domain": "multi"}
+    # headers that are found only along an include path (the earlier ones become `-include` arguments after the round trip)
+    if not only or only.startswith("headers-via-include-path"):
+        inc = os.path.join(wd, "incdir")
+        os.makedirs(inc, exist_ok=True)
+        open(os.path.join(inc, "first_only_in_incdir.h"), "w").write("typedef short first_t;\n")
+        open(os.path.join(inc, "second_only_in_incdir.h"), "w").write("typedef first_t second_t;\n")
+        mainh = os.path.join(wd, "multi_main.h")
+        open(mainh, "w").write("struct UsesFirst { first_t f; };\n")
+        for name, firsts in (("headers-via-include-path-1", ["first_only_in_incdir.h"]), ("headers-via-include-path-2", ["first_only_in_incdir.h", "second_only_in_incdir.h"])):
+            if only and only != name:
+                continue
+            jid = f"R|{name}|multi"
+            jobs.append({"id": jid, "mode": "roundtrip", "ops": [["header", h] for h in firsts] + [["header", mainh], ["clang_arg", "-I" + inc]]})
+            index[jid] = {"name": name, "domain": "multi"}
+            jid = f"F|{name}|multi"
+            jobs.append({"id": jid, "mode": "flagcmp", "ops": [["header", h] for h in firsts] + [["header", mainh], ["clang_arg", "-I" + inc]],
+                         "flags": [mainh, "--", "-I" + inc] + sum((["-include", h] for h in firsts), [])})
+            index[jid] = {"name": name, "domain": "multi"}
     res = common.run_jobs(jobs, wd, timeout=60)
+    # the same single rows with the environment variables bindgen consults set: what the environment contributes must not be
+    # folded into the configuration (a re-parsed flag list would then carry it twice)
+    if not only or only.startswith("env:"):
+        env = dict(common.ENV)
+        cnt = os.path.join(wd, "env_counter.h")
+        open(cnt, "w").write("#ifdef C13_SEEN_ONCE\n#define C13_SEEN_TWICE 1\nint c13_seen_twice(void);\n#else\n#define C13_SEEN_ONCE 1\n#endif\n")
+        env["BINDGEN_EXTRA_CLANG_ARGS"] = f"-DC13_ENV=1 -include {cnt}"
+        ejobs = []
+        for i, row in enumerate(cfgs):
+            if only and "env:" + row["name"] != only:
+                continue
+            if ck.tier == "quick" and not only and i % 3 != (ck.seed % 3) and row["domain"] != "bool":
+                continue
+            for j in make_jobs(row, hdrs, wd, "e" + str(i)):
+                if j["id"].startswith("R|"):
+                    j["id"] = "R|env" + j["id"][2:]
+                    ejobs.append(j)
+                    index[j["id"]] = {"name": "env:" + row["name"], "domain": row["domain"]}
+        eres = common.run_jobs(ejobs, wd, timeout=60, env=env)
+        for jid, r in eres.items():
+            kind, _, hk = jid.split("|")
+            ck.count()
+            ck.nontriv(("env", jid))
+            judge(ck, index[jid]["name"], hk, kind, r, None)
+        ck.extra["round_trips_with_environment_arguments"] = len(ejobs)
     defaults = {}
     for hk in hdrs:
         d = res.get(f"R|0|{hk}")
